@@ -514,6 +514,23 @@ Section Handler.
   Definition queueable (k : ckind) : Prop := k = KPlain \/ k = KUnwatch \/ k = KStubOther.
   (* the reply GET k gets in backend state s *)
   Definition get_reply (s : St) (k : bytes) : resp := snd (exec s (cmd_get k)).
+  (* the snapshots client A's WATCH commands take along a schedule that starts in state y: one
+     (key, GET reply at that instant) per key named, in order - a key watched again (or repeated
+     inside one WATCH) gets a further entry, the earlier ones stay *)
+  Fixpoint watch_snaps (y : sys) (sched : list (bool * resp)) : list (bytes * resp) :=
+    match sched with
+    | [] => []
+    | (who, v) :: t =>
+      (if who then
+         match decode_cmd v with
+         | inl cm => match kind cm with
+                     | KWatch ks => map (fun k => (k, get_reply (sst y) k)) ks
+                     | _ => []
+                     end
+         | inr _ => []
+         end
+       else []) ++ watch_snaps (step2 y who v) t
+    end.
 
   (* a stream of well-formed frames (possibly with an unfinished frame at the end) *)
   Definition wf_stream (stream : bytes) : Prop :=
